@@ -112,6 +112,19 @@ def build_traces(path, tier, seed):
         out = gn.interp2d(x, xf, f)
         add({"kind": "interp2d", "xf": enc_seq(xf), "cols": [enc_seq(f[:, c]) for c in range(ncol)], "x": enc_seq(x),
              "out": [enc_seq(out[:, c]) for c in range(ncol)]}, {"kind": "interp2d", "k": k, "ncol": ncol})
+        if i % 3 == 1:
+            # tables of whole numbers held in integer types (also unsigned and narrow ones): rising and falling columns, the
+            # interpolated values in between are fractional
+            dtt = [np.uint8, np.int8, np.uint16, np.int16, np.int64, np.uint32][int(rng.integers(6))]
+            ii = np.iinfo(dtt)
+            f_t = rng.integers(max(ii.min, -60000), min(ii.max, 60000), size=(k, ncol), endpoint=True).astype(dtt)
+            out_t = gn.interp2d(x, xf, f_t)
+            add({"kind": "interp2d", "xf": enc_seq(xf), "cols": [enc_seq(np.asarray(f_t[:, c], dtype=float)) for c in range(ncol)], "x": enc_seq(x),
+                 "out": [enc_seq(out_t[:, c]) for c in range(ncol)]}, {"kind": "interp2d", "k": k, "ncol": ncol, "table dtype": np.dtype(dtt).name})
+            y_t = f_t[:, 0]
+            x0_t = x[x >= xf[0]]
+            add({"kind": "interp_left", "xs": enc_seq(xf), "y": enc_seq(np.asarray(y_t, dtype=float)), "x0": enc_seq(x0_t), "out": enc_seq(gn.interp_left(x0_t, xf, y_t))},
+                {"kind": "interp_left", "k": k, "y dtype": np.dtype(dtt).name})
         x0 = x[x >= xf[0]]
         y = f[:, 0]
         add({"kind": "interp_left", "xs": enc_seq(xf), "y": enc_seq(y), "x0": enc_seq(x0), "out": enc_seq(gn.interp_left(x0, xf, y))},
